@@ -15,3 +15,11 @@ Proof. reflexivity. Qed.
 Lemma bridge_farmer_flags :
   gen_records_last = true /\ gen_harvest_uses_add_ds = true /\ gen_samples_use_add_df = true.
 Proof. repeat split; reflexivity. Qed.
+
+(* every entry point of the crop route and of the direct route has the same default merge policy (None:
+   merge unless conflicting) and syncs by default; Crop.reap forwards both *)
+Lemma bridge_policy_defaults :
+  forallb (fun qd => match snd qd with None => true | Some _ => false end) gen_overwrite_defaults = true
+  /\ forallb (fun qd => match snd qd with Some true => true | _ => false end) gen_sync_defaults = true
+  /\ gen_reap_forwards_policy = true.
+Proof. repeat split; reflexivity. Qed.
